@@ -2,7 +2,7 @@
 generators, runner, Coq emitter and the property's own oracle."""
 import numpy as np
 from harness.driver import call_impl, cz, cnat, cbool, czlist, cgrid, clist, cres
-from harness.twins import Logged1, make_rule, coq_rule_spec
+from harness.twins import Logged1, Scribble, make_rule, coq_rule_spec
 
 ID = 'C01'
 COQ_IMPORTS = ('From CPL Require Import Model.Base Model.Rules Model.Engine Model.Evolve1D Corr.C01.\n'
@@ -14,11 +14,13 @@ EXHAUSTIVE = {'quick': False, 'thorough': False}
 NOTES = ['every (N, r) with 1 <= r <= N <= 8 (thorough: <= 12), every T in 1..4, every rule family, both forms of '
          '`timesteps` is enumerated; history length and dtype are crossed completely for N <= 3 (thorough: N <= 12, and N <= 6 for callable timesteps)',
          'the (n, c, t) argument log is compared in full for every case with N <= 12 and for Script rules at every size',
-         'stream floatrule: the rule returns value/4.0 into an int automaton; model store = truncation toward zero']
+         'stream floatrule: the rule returns value/4.0 into an int automaton; model store = truncation toward zero',
+         'stream scribble: the rule overwrites its neighbourhood argument in place after computing its value '
+         '(twins.Scribble); the model passes values, so the model-side rule is the underlying one']
 ASSUMPTIONS = ['rule results are representable in the automaton dtype (out-of-range results are outside the property)',
                'float automata carry integer-valued floats',
                'T = 0 and r outside 1..N are outside the property and are not generated']
-TRUSTED = ['Python twins Lin1 / LinCT1 / Script / Logged1 of harness/twins.py and the Scaled wrapper of harness/props/c01.py']
+TRUSTED = ['Python twins Lin1 / LinCT1 / Script / Logged1 / Scribble of harness/twins.py and the Scaled wrapper of harness/props/c01.py']
 
 DTYPES = ['int32', 'int64', 'uint8', 'float64']
 FAMS = ['script', 'linct', 'lin']
@@ -80,9 +82,12 @@ def _rule(rng, fam, N, r, T, dtype, scale=1):
     return {'fam': fam, 'ws': ws, 'm': m * (scale if scale != 1 and rng.random() < 0.5 else 1)}
 
 
-def _case(rng, kind, N, r, T, H, dtype, fam, dyn, scale=1, log=True):
-    return {'kind': kind, 'dyn': dyn, 'scale': scale, 'dtype': dtype, 'hist': _hist(rng, N, H, dtype),
-            'T': T, 'r': r, 'rule': _rule(rng, fam, N, r, T, dtype, scale), 'log': log}
+def _case(rng, kind, N, r, T, H, dtype, fam, dyn, scale=1, log=True, scribble=False):
+    c = {'kind': kind, 'dyn': dyn, 'scale': scale, 'dtype': dtype, 'hist': _hist(rng, N, H, dtype),
+         'T': T, 'r': r, 'rule': _rule(rng, fam, N, r, T, dtype, scale), 'log': log}
+    if scribble:
+        c['scribble'] = True     # Python side only: the rule overwrites its argument after computing its value
+    return c
 
 
 def generate(rng, tier):
@@ -134,6 +139,16 @@ def generate(rng, tier):
         fam = rng.choice(['script', 'script', 'linct', 'lin'])
         dtype = rng.choice(['int32', 'int64', 'uint8'])
         yield _case(rng, 'floatrule/%s' % fam, N, r, T, rng.randint(1, 2), dtype, fam, rng.random() < 0.3, scale=4)
+    # (5) rules that overwrite their neighbourhood argument in place (after computing their value): every cell
+    #     must still receive the states of the previous row, i.e. its own copy of the neighbourhood
+    n_sc = 150 if tier == 'quick' else 1500
+    for k in range(n_sc):
+        N = 3 + k % 10
+        r = rng.randint(1, N)
+        fam = FAMS[k % 3]
+        dyn = (k // 3) % 2 == 1
+        yield _case(rng, 'scribble/%s/%s' % (fam, 'callable' if dyn else 'fixed'), N, r, rng.randint(2, 4),
+                    rng.randint(1, 2), rng.choice(DTYPES), fam, dyn, scribble=True)
 
 
 # ---------------------------------------------------------------- implementation
@@ -143,6 +158,8 @@ def run_impl(c):
     base = make_rule(c['rule'])
     if c['scale'] != 1:
         base = Scaled(base, c['scale'])
+    if c.get('scribble'):
+        base = Scribble(base)
     rule = Logged1(base)
     T = c['T']
     ts = (lambda ca_, t: t < T) if c['dyn'] else T
@@ -248,6 +265,8 @@ def shrink(c):
         yield rebuild(hist[-1:], T, r)
     if c['dyn']:
         yield dict(c, dyn=False)
+    if c.get('scribble'):
+        yield dict(c, scribble=False)
     if N > 1:
         yield rebuild([row[:N - 1] for row in hist], T, min(r, N - 1))
         yield rebuild([row[:max(N // 2, 1)] for row in hist], T, min(r, max(N // 2, 1)))
